@@ -498,8 +498,9 @@ def tag_spec(ctx, sp):
     loc = sp.get("location")
     if loc is None:
         t("location:default")
-    elif loc.get("env") and loc["env"].get("time") and loc["env"]["time"].get("day") is not None:
+    elif loc.get("env") and loc["env"].get("time") and all(loc["env"]["time"].get(k_) is not None for k_ in G.DATE_ARGS):
         t("location:env-time-date")
+    tag_groups(ctx, sp)
     if sp.get("via") != "scenario":
         t("header:via-writer")
     if sp.get("sid") is None:
@@ -512,6 +513,57 @@ def tag_spec(ctx, sp):
         t("real:subnormal-or-huge")
     if any(v == 0 and str(v).startswith("-") for v in _reals(sp)):
         t("real:minus-zero")
+
+
+# optional groups whose members are populated one by one: (bucket stem, spec keys); every subset is a bucket
+# `group:<stem>:<members present joined by + | none>`; `group:<stem>:partial` = some but not all members present
+GROUPS = {"env-time-date": tuple(G.DATE_ARGS), "location": tuple(k_ for k_, _ in G.LOC_ARGS), "geo": tuple(k_ for k_, _ in G.GEO_ARGS),
+          "rect": ("c", "o")}
+
+
+def _subsets(keys):
+    out = [[]]
+    for k_ in keys:
+        out = out + [s_ + [k_] for s_ in out]
+    return ["+".join(s_) or "none" for s_ in out]
+
+
+def _rects(x):
+    if isinstance(x, dict):
+        if x.get("k") == "rect":
+            yield x
+        for v in x.values():
+            yield from _rects(v)
+    elif isinstance(x, list):
+        for v in x:
+            yield from _rects(v)
+
+
+def tag_groups(ctx, sp):
+    loc = sp.get("location") or {}
+    env = loc.get("env") or {}
+    objs = {"env-time-date": [env["time"]] if env.get("time") else [], "location": [loc] if loc else [],
+            "geo": [loc["geo"]] if loc.get("geo") else [], "rect": list(_rects(sp))}
+    for stem, keys in GROUPS.items():
+        for o in objs[stem]:
+            have = [k_ for k_ in keys if o.get(k_) is not None]
+            ctx.tag(f"group:{stem}:" + ("+".join(have) or "none"))
+            if 0 < len(have) < len(keys):
+                ctx.tag(f"group:{stem}:partial")
+            for k_ in keys:
+                if k_ in have and len(have) < len(keys):
+                    ctx.tag(f"group:{stem}:{k_}-without-a-sibling")
+                if k_ not in have and have:
+                    ctx.tag(f"group:{stem}:siblings-without-{k_}")
+
+
+# a partially populated optional group must stay generated: all 8 subsets of the date, all 8 of the location scalars, every
+# member of the geo transformation / rectangle pose both present without a sibling and absent beside one
+REQUIRED_BUCKETS += ([f"group:env-time-date:{s_}" for s_ in _subsets(GROUPS["env-time-date"])]
+                     + [f"group:location:{s_}" for s_ in _subsets(GROUPS["location"])]
+                     + [f"group:{g_}:partial" for g_ in GROUPS]
+                     + [f"group:{g_}:{k_}-without-a-sibling" for g_ in ("geo", "rect") for k_ in GROUPS[g_]]
+                     + [f"group:{g_}:siblings-without-{k_}" for g_ in ("geo", "rect") for k_ in GROUPS[g_]])
 
 
 def nontrivial(sp):
